@@ -370,3 +370,89 @@ def sh4_bracket(ctx: Ctx):
                    where(fi, fi.node), sample="'[' in host decides between host[1:-1] and host")
     if not judged:
         raise AnalysisError("SH4-BRACKET: no pre-filled raw_host entry comes from the host encoder (anchor vanished)")
+
+
+_PQ_EXAMPLES = (
+    ("def f(self, q):\n    qm = MultiDict(self._parsed_query)\n    qm.update(q)\n    url = from_parts_uncached(self._scheme, self._netloc, self._path, get_str_query_from_sequence_iterable(qm.items()), self._fragment)\n    url._cache['_parsed_query'] = list(qm.items())\n    return url\n", 1),
+    ("def f(self, q):\n    new = get_str_query(q)\n    url = from_parts_uncached(self._scheme, self._netloc, self._path, new, self._fragment)\n    url._cache['_parsed_query'] = list(self._parsed_query) + parse_qsl(new, keep_blank_values=True)\n    return url\n", 0),
+    ("def f(self, q):\n    url = from_parts_uncached(self._scheme, self._netloc, self._path, str(q), self._fragment)\n    url._cache['_parsed_query'] = [(k, str(v)) for k, v in ()]\n    return url\n", 0),
+)
+
+
+def _unserialised_inputs(model, r):
+    """[(node, stored term, caller-supplied term)] for stores under cache key '_parsed_query' whose value holds a parameter of
+    the function (other than self) that did not pass through a call producing text (the query serialisers of _query, the
+    quoters, parse_qsl, str)."""
+    def textmaker(f):
+        if f == ("builtin", "str"):
+            return True
+        if f[0] == "ext":
+            return f[-1] in ("parse_qsl", "quote", "unquote")
+        if f[0] == "global":
+            return f[1] == "_query" or f[2].endswith("QUOTER") or f[2].startswith("get_str_query") or f[2] == "query_var"
+        return False
+
+    def tainted(t):
+        if not isinstance(t, tuple) or not t:
+            return None
+        if isinstance(t[0], tuple):
+            pass
+        elif t[0] == "param":
+            return None if t[1] == "self" else t
+        elif t[0] == "attr" and t[1] == S:
+            return None        # the URL's own stored text / accessors
+        elif t[0] == "call" and textmaker(t[1]):
+            return None
+        for x in (t if isinstance(t[0], tuple) else t[1:]):
+            if isinstance(x, tuple) and x:
+                got = tainted(x)
+                if got is not None:
+                    return got
+        return None
+    out, seen = [], set()
+    for e in r.by_kind("store_sub"):
+        if e.index != ("const", "_parsed_query"):
+            continue
+        p = tainted(e.value)
+        if p is None or (e.value, p) in seen:
+            continue
+        seen.add((e.value, p))
+        for fk, fv in e.state.facts.items():
+            if fv is True and fk[0] == "call" and fk[1] == ("builtin", "isinstance") and len(fk[2]) == 2 and any(x == p for x in walk(fk[2][0])) \
+                    and any(x == ("builtin", "str") for x in walk(fk[2][1])):
+                raise AnalysisError(f"PQ-TAINT: the caller's value stored under '_parsed_query' is type-tested first ({show(fk)[:60]}): unknown idiom")
+        out.append((e.node, e.value, p))
+    return out
+
+
+def pq_taint(ctx: Ctx):
+    """PQ-TAINT: `_parsed_query` is by definition parse_qsl(stored query text): pairs of str. A constructor or modifier that
+    pre-fills it for the URL it returns may compute it any way it likes from text, but a caller-supplied value (a Query mapping or
+    sequence: int / float / enum values, lists of values) stored there as supplied is read back by .query as the caller's
+    objects, while a pickled or copied twin - and the same URL parsed from its string - gives the serialised text."""
+    from ..model import FuncInfo
+    model = ctx.model
+    rule = "PQ-TAINT"
+    ctx.rule(rule, floor=0, what="no caller-supplied query object is stored under '_parsed_query' without passing a serialiser")
+    for i, (src, want) in enumerate(_PQ_EXAMPLES):
+        node = ast.parse(src).body[0]
+        got = len(_unserialised_inputs(model, analyze(model, FuncInfo("_url", "URL", f"<pq-example-{i}>", node))))
+        if got != want:
+            raise AnalysisError(f"PQ-TAINT self-check: {got} unserialised store(s) found in {src!r}, expected {want}")
+    n = 0
+    nfun = 0
+    for fi in model.all_funcs():
+        if fi.module != "_url" or (fi.cls and fi.cls != "URL"):
+            continue
+        nfun += 1
+        for node, v, p in _unserialised_inputs(model, analyze(model, fi)):
+            n += 1
+            ctx.instance(rule)
+            ctx.functions.add(fi.qual)
+            ctx.ob(rule, fi.qual, f"cache['_parsed_query'] holds {show(p)[:40]} as supplied", False,
+                   f"the pre-filled pairs {show(v)[:90]} contain the caller's value {show(p)[:40]} without a serialiser in between: "
+                   ".query returns the caller's objects (ints, lists, enums) where the stored text - and an unpickled twin - gives str",
+                   where(fi, node), sample="pairs computed from text (parse_qsl of the serialised query)")
+    ctx.instance(rule)
+    ctx.ob(rule, "<module _url>", "pre-filled '_parsed_query' entries", True,
+           sample=f"{n} unserialised store(s) in {nfun} functions; self-check on {len(_PQ_EXAMPLES)} built-in examples", nontrivial=False)
